@@ -112,6 +112,9 @@ func runC02(c *core.Ctx) {
 			inj.injectOne()
 		}
 	}
+	if c.T.Bias(1, 4, "silent-expiry") && !c.Failed() {
+		inj.silentExpiry()
+	}
 	if !k.restart && c.T.Bias(1, 3, "onesided") && !c.Failed() {
 		inj.oneSidedRestart(sess)
 		return
@@ -183,6 +186,70 @@ func (in *c02Injector) transactions(ag *rig.AgentH, h *simnet.Host) []txInfo {
 		out = append(out, txInfo{id: m.TxID, dst: w.D.Dst, src: w.D.Src, age: now - w.At, answered: answered[m.TxID]})
 	}
 	return out
+}
+
+// silentExpiry: nothing reaches the agents for longer than a transaction lives (so nothing makes them tidy up
+// their outstanding transactions either); then an authentic success response arrives for a request that is
+// older than that: its transaction is not outstanding any more, the response changes nothing.
+func (in *c02Injector) silentExpiry() {
+	c, d := in.c, in.d
+	target, peer, th := d.A, d.B, d.HA
+	if c.T.Choose(2, "target") == 1 {
+		target, peer, th = d.B, d.A, d.HB
+	}
+	if target.Conn == nil {
+		return
+	}
+	for el := time.Duration(0); el < 4500*time.Millisecond; el += 100 * time.Millisecond {
+		for _, dg := range d.W.InFlight() {
+			d.W.Drop(dg)
+		}
+		d.S.Advance(100 * time.Millisecond)
+	}
+	for _, dg := range d.W.InFlight() {
+		d.W.Drop(dg)
+	}
+	c.Fault("silence-longer-than-a-transaction-lives")
+	locals := map[netip.AddrPort]bool{}
+	for _, lc := range target.LocalCands() {
+		locals[rig.CandAP(lc)] = true
+	}
+	var old []txInfo
+	for _, t := range in.transactions(target, th) {
+		if !t.answered && t.age >= 4200*time.Millisecond && t.age < 20*time.Second && locals[t.src] {
+			old = append(old, t)
+		}
+	}
+	if len(old) == 0 {
+		return
+	}
+	t := old[len(old)-1-c.T.Choose(min(len(old), 3), "whichold")]
+	pre := rig.TakeSnap(target)
+	before := map[uint64]bool{}
+	for _, q := range d.W.InFlight() {
+		before[q.ID] = true
+	}
+	id, dst := t.id, t.src
+	spec := rig.MsgSpec{Method: stun.MethodBinding, Class: stun.ClassSuccessResponse, TxID: &id, XorAddr: &dst, Key: peer.Pwd}
+	dg := d.W.Inject(t.dst, dst, spec.Build(), "late response to an expired transaction")
+	c.Fault("inject:resp/expired-tx-after-silence")
+	if res, _ := d.S.Deliver(dg); res != simnet.Delivered {
+		return
+	}
+	post := rig.TakeSnap(target)
+	var problems []string
+	ids := hostSockIDs(d.W, th)
+	for _, q := range d.W.InFlight() {
+		if !before[q.ID] && ids[q.SockID] {
+			problems = append(problems, "agent emitted "+d.Tx.Describe(q))
+		}
+	}
+	problems = append(problems, rig.Diff(pre, post, rig.DiffOpts{AllowLastRecv: map[string]bool{"udp/" + t.dst.String(): true}})...)
+	if len(problems) > 0 {
+		c.Failf("C02/effect/resp/expired-tx-after-silence", "an authentic success response to a request sent %v ago (a transaction lives 4 s; nothing had reached %s in between) had an effect: %v", t.age, target.Name, problems)
+		return
+	}
+	c.Probe("late-response-to-expired-tx-ignored")
 }
 
 func (in *c02Injector) injectOne() {
